@@ -14,6 +14,7 @@ import (
 	"encoding/xml"
 	"errors"
 	"fmt"
+	"html/template"
 	"io"
 	"log"
 	"net/http"
@@ -36,7 +37,8 @@ import (
 // ---------------------------------------------------------------- alphabets
 
 // UserNames is the user alphabet.
-var UserNames = []string{"alice", "bob", "carol"}
+// The last name needs escaping in a URL path and in a form.
+var UserNames = []string{"alice", "bob", "carol", "d/e f+g%2Fh"}
 
 // Passwords is the password alphabet; index 3 is the empty password.
 var Passwords = []string{"pw-zero", "pw-one", "pw-two", ""}
@@ -59,6 +61,8 @@ type Profile struct {
 // (= NameID) embeds the user name so that assertions name their user.
 func ProfileOf(user string, variant int) Profile {
 	switch variant {
+	case 3: // markup characters, non-ASCII, inner double space (no leading / trailing white space, no CR)
+		return Profile{Email: user + "+tag@\u00fc.example", CommonName: `O'Brien & <S\u00f6hne> "x"`, Surname: "\u00dcn\u00efcode \u65e5\u672c", GivenName: "a  b", ScopedAffiliation: "x&y@three.example", Groups: []string{"g&1", "<g2>", "g 3", "g0"}}
 	case 1:
 		return Profile{Email: user + "@one.example", CommonName: "Cn One " + user, Surname: "Sn1", GivenName: "Gn1-" + user, ScopedAffiliation: "staff@one.example", Groups: []string{"g1", "shared"}}
 	case 2:
@@ -68,11 +72,14 @@ func ProfileOf(user string, variant int) Profile {
 	}
 }
 
+// NProfiles is the number of profile variants.
+const NProfiles = 4
+
 // ServiceNames is the service-name alphabet.
-var ServiceNames = []string{"svc-a", "svc-b", "svc-c"}
+var ServiceNames = []string{"svc-a", "svc-b", "svc-c", "svc d/\u00e9+%2F?x"}
 
 // ShortcutNames is the shortcut-name alphabet.
-var ShortcutNames = []string{"sc-x", "sc-y"}
+var ShortcutNames = []string{"sc-x", "sc-y", "sc z/+ q#r"}
 
 // Entities: two registrable entity IDs and one that is never registered.
 var Entities = []string{"https://sp-one.example/saml/metadata", "https://sp-two.example/saml/metadata", "https://sp-none.example/saml/metadata"}
@@ -82,9 +89,23 @@ var ACS = []string{"https://sp-one.example/saml/acs", "https://sp-one.example/sa
 
 // MDVariant is one metadata document a service can be stored with.
 type MDVariant struct {
-	Entity  int
+	Entity int
+	// ACS is the set of ACS URLs (indices) of the registration, over all its descriptors.
 	ACS     []int
 	Encrypt bool
+	// Layout, when set, spreads the endpoints over several SPSSODescriptors and decorates
+	// them (binding, ResponseLocation, isDefault); otherwise one descriptor with POST endpoints.
+	Layout [][]ACSSpec
+	// Extras adds role descriptors, organisation and contact data no clause mentions.
+	Extras bool
+}
+
+// ACSSpec is one assertion consumer endpoint of a Layout.
+type ACSSpec struct {
+	URL      int
+	Redirect bool
+	RespLoc  bool
+	Default  bool
 }
 
 // Variants: two entity IDs x two ACS sets.
@@ -93,6 +114,10 @@ var Variants = []MDVariant{
 	{Entity: 0, ACS: []int{1}},
 	{Entity: 1, ACS: []int{2}, Encrypt: true},
 	{Entity: 1, ACS: []int{3, 2}},
+	// two SPSSODescriptors, endpoints with ResponseLocation, further role descriptors
+	{Entity: 0, ACS: []int{1, 0}, Layout: [][]ACSSpec{{{URL: 1, RespLoc: true}}, {{URL: 0, RespLoc: true, Default: true}}}, Extras: true},
+	// a POST endpoint followed by a redirect-bound default endpoint
+	{Entity: 1, ACS: []int{2, 3}, Layout: [][]ACSSpec{{{URL: 2, RespLoc: true}, {URL: 3, Redirect: true, Default: true}}}, Extras: true},
 }
 
 // RelayStates used in requests and shortcuts.
@@ -105,23 +130,58 @@ func MetadataXML(v int) []byte {
 	}
 	mv := Variants[v]
 	sp := fix.Get("sp")
-	d := saml.SPSSODescriptor{}
-	d.ProtocolSupportEnumeration = "urn:oasis:names:tc:SAML:2.0:protocol"
-	kd := saml.KeyDescriptor{Use: "signing"}
-	kd.KeyInfo.X509Data.X509Certificates = []saml.X509Certificate{{Data: sp.CertB64()}}
-	d.KeyDescriptors = append(d.KeyDescriptors, kd)
-	if mv.Encrypt {
-		ke := saml.KeyDescriptor{Use: "encryption", EncryptionMethods: []saml.EncryptionMethod{
-			{Algorithm: "http://www.w3.org/2001/04/xmlenc#aes128-cbc"},
-			{Algorithm: "http://www.w3.org/2001/04/xmlenc#rsa-oaep-mgf1p"},
-		}}
-		ke.KeyInfo.X509Data.X509Certificates = []saml.X509Certificate{{Data: sp.CertB64()}}
-		d.KeyDescriptors = append(d.KeyDescriptors, ke)
+	layout := mv.Layout
+	if layout == nil {
+		var one []ACSSpec
+		for _, a := range mv.ACS {
+			one = append(one, ACSSpec{URL: a})
+		}
+		layout = [][]ACSSpec{one}
 	}
-	for i, a := range mv.ACS {
-		d.AssertionConsumerServices = append(d.AssertionConsumerServices, saml.IndexedEndpoint{Binding: saml.HTTPPostBinding, Location: ACS[a], Index: i + 1})
+	e := saml.EntityDescriptor{EntityID: Entities[mv.Entity], ValidUntil: fix.Epoch.Add(10 * 365 * 24 * time.Hour)}
+	idx := 0
+	for _, specs := range layout {
+		d := saml.SPSSODescriptor{}
+		d.ProtocolSupportEnumeration = "urn:oasis:names:tc:SAML:2.0:protocol"
+		kd := saml.KeyDescriptor{Use: "signing"}
+		kd.KeyInfo.X509Data.X509Certificates = []saml.X509Certificate{{Data: sp.CertB64()}}
+		d.KeyDescriptors = append(d.KeyDescriptors, kd)
+		if mv.Encrypt {
+			ke := saml.KeyDescriptor{Use: "encryption", EncryptionMethods: []saml.EncryptionMethod{
+				{Algorithm: "http://www.w3.org/2001/04/xmlenc#aes128-cbc"},
+				{Algorithm: "http://www.w3.org/2001/04/xmlenc#rsa-oaep-mgf1p"},
+			}}
+			ke.KeyInfo.X509Data.X509Certificates = []saml.X509Certificate{{Data: sp.CertB64()}}
+			d.KeyDescriptors = append(d.KeyDescriptors, ke)
+		}
+		for _, a := range specs {
+			idx++
+			ep := saml.IndexedEndpoint{Binding: saml.HTTPPostBinding, Location: ACS[a.URL], Index: idx}
+			if a.Redirect {
+				ep.Binding = saml.HTTPRedirectBinding
+			}
+			if a.RespLoc {
+				r := ACS[a.URL] + "/response"
+				ep.ResponseLocation = &r
+			}
+			if a.Default {
+				t := true
+				ep.IsDefault = &t
+			}
+			d.AssertionConsumerServices = append(d.AssertionConsumerServices, ep)
+		}
+		if mv.Extras {
+			d.SingleLogoutServices = []saml.Endpoint{{Binding: saml.HTTPPostBinding, Location: Entities[mv.Entity] + "/slo", ResponseLocation: Entities[mv.Entity] + "/slo-done"}}
+			d.NameIDFormats = []saml.NameIDFormat{saml.EmailAddressNameIDFormat, saml.TransientNameIDFormat}
+		}
+		e.SPSSODescriptors = append(e.SPSSODescriptors, d)
 	}
-	e := saml.EntityDescriptor{EntityID: Entities[mv.Entity], ValidUntil: fix.Epoch.Add(10 * 365 * 24 * time.Hour), SPSSODescriptors: []saml.SPSSODescriptor{d}}
+	if mv.Extras {
+		e.Organization = &saml.Organization{OrganizationNames: []saml.LocalizedName{{Lang: "en", Value: "Org & Co"}}, OrganizationURLs: []saml.LocalizedURI{{Lang: "en", Value: "https://org.example/"}}}
+		e.ContactPerson = &saml.ContactPerson{ContactType: "technical", GivenName: "T", EmailAddresses: []string{"t@org.example"}}
+		rd := saml.RoleDescriptor{ProtocolSupportEnumeration: "urn:oasis:names:tc:SAML:2.0:protocol"}
+		e.AttributeAuthorityDescriptors = []saml.AttributeAuthorityDescriptor{{RoleDescriptor: rd, AttributeServices: []saml.Endpoint{{Binding: saml.SOAPBinding, Location: Entities[mv.Entity] + "/aa"}}}}
+	}
 	b, err := xml.Marshal(&e)
 	if err != nil {
 		panic(err)
@@ -131,17 +191,23 @@ func MetadataXML(v int) []byte {
 
 // VariantOfMetadata recognises which variant a stored EntityDescriptor is (-1: none).
 func VariantOfMetadata(e *saml.EntityDescriptor) int {
+	var locs []string
+	for _, d := range e.SPSSODescriptors {
+		for _, a := range d.AssertionConsumerServices {
+			locs = append(locs, a.Location)
+		}
+	}
 	for i, mv := range Variants {
-		if e.EntityID != Entities[mv.Entity] || len(e.SPSSODescriptors) != 1 {
+		if e.EntityID != Entities[mv.Entity] || len(locs) != len(mv.ACS) {
 			continue
 		}
-		d := e.SPSSODescriptors[0]
-		if len(d.AssertionConsumerServices) != len(mv.ACS) {
-			continue
+		nd := 1
+		if mv.Layout != nil {
+			nd = len(mv.Layout)
 		}
-		ok := true
+		ok := nd == len(e.SPSSODescriptors)
 		for j, a := range mv.ACS {
-			if d.AssertionConsumerServices[j].Location != ACS[a] {
+			if locs[j] != ACS[a] {
 				ok = false
 			}
 		}
@@ -182,6 +248,7 @@ type Step struct {
 	Suffix  string `json:"suffix,omitempty"`  // launch URL suffix; put_shortcut: "y" = url_suffix_as_relay_state
 	Delta   int64  `json:"delta,omitempty"`   // clock: seconds
 	Session Cookie `json:"session,omitempty"` // del_session / get_session: which session id
+	Bad     bool   `json:"bad,omitempty"`     // put_user / put_shortcut / put_service: the body is not a document of its type
 }
 
 // IsRequest reports whether the step is an HTTP request (not a clock / seed step).
@@ -424,7 +491,22 @@ func SeededReader(seed uint64) io.Reader { return &prf{seed: seed} }
 // ---------------------------------------------------------------- environment
 
 // Env is one server instance over one wrapped store with a controlled clock.
+// Opts varies the public fields of samlidp.Options that no clause mentions.
+type Opts struct {
+	URL      int  `json:"url,omitempty"`      // 0 https://idp.example  1 same with trailing slash  2 http://idp.test:8080/base/
+	Signer   bool `json:"signer,omitempty"`   // pass the key as Options.Signer instead of Options.Key
+	Cert     int  `json:"cert,omitempty"`     // 0 fixture "idp", 1 fixture "idp2"
+	Template bool `json:"template,omitempty"` // a custom LoginFormTemplate
+}
+
+var baseURLs = []string{"https://idp.example", "https://idp.example/", "http://idp.test:8080/base/"}
+
+var customLoginTemplate = template.Must(template.New("custom-login").Parse(`<html><body><h1>Sign in</h1><div class="toast">{{.Toast}}</div>` +
+	`<form action="{{.URL}}" method="post"><label>User <input name="user"></label><label>Password <input type="password" name="password"></label>` +
+	`<input type="hidden" name="SAMLRequest" value="{{.SAMLRequest}}"><input type="hidden" name="RelayState" value="{{.RelayState}}"><button>Go</button></form></body></html>`))
+
 type Env struct {
+	Opts  Opts
 	Store *Store
 	// Raw makes the server use the bare MemoryStore instead of the wrapper (free-running
 	// race runs: the wrapper's own mutex would order the store operations).
@@ -455,19 +537,48 @@ func NewEnv(seed uint64) *Env {
 // Start creates (or re-creates: restart) the server over the same store.  Store
 // operations of start-up are neither counted nor faulted.
 func (e *Env) Start() error {
-	u, _ := url.Parse(BaseURL)
+	u, _ := url.Parse(baseURLs[clamp(e.Opts.URL, len(baseURLs))])
 	idp := fix.Get("idp")
+	if e.Opts.Cert == 1 {
+		idp = fix.Get("idp2")
+	}
 	e.Store.Counting(false)
 	var st samlidp.Store = e.Store
 	if e.Raw {
 		st = e.Base
 	}
-	srv, err := samlidp.New(samlidp.Options{URL: *u, Key: idp.Key, Certificate: idp.Cert, Logger: quiet, Store: st})
+	o := samlidp.Options{URL: *u, Key: idp.Key, Certificate: idp.Cert, Logger: quiet, Store: st}
+	if e.Opts.Signer {
+		o.Key, o.Signer = nil, idp.Key
+	}
+	if e.Opts.Template {
+		o.LoginFormTemplate = customLoginTemplate
+	}
+	srv, err := samlidp.New(o)
 	if err != nil {
 		return err
 	}
 	e.Server = srv
 	return nil
+}
+
+// origin is scheme://host of the configured URL; the handler's routes are not prefixed by
+// the URL's path (a front end is assumed to strip it), only the advertised URLs are.
+func (e *Env) origin() string {
+	u, _ := url.Parse(baseURLs[clamp(e.Opts.URL, len(baseURLs))])
+	return u.Scheme + "://" + u.Host
+}
+
+// NoteSessionID records a session id learned from a Set-Cookie header (creation order).
+func (e *Env) NoteSessionID(id string) bool {
+	e.mu.Lock()
+	defer e.mu.Unlock()
+	if e.known[id] {
+		return false
+	}
+	e.known[id] = true
+	e.Sessions = append(e.Sessions, id)
+	return true
 }
 
 // SeedUser writes a user record directly into the store (pw < 0: no hash).
@@ -620,7 +731,7 @@ func (e *Env) Build(s Step) *Built {
 		if body != nil {
 			rd = bytes.NewReader(body)
 		}
-		q := httptest.NewRequest(method, BaseURL+path, rd)
+		q := httptest.NewRequest(method, e.origin()+path, rd)
 		if ctype != "" {
 			q.Header.Set("Content-Type", ctype)
 		}
@@ -639,7 +750,11 @@ func (e *Env) Build(s Step) *Built {
 	esc := url.PathEscape
 	switch s.Op {
 	case "put_user":
-		r = mk("PUT", "/users/"+esc(s.Name), userJSON(s), "application/json")
+		body := userJSON(s)
+		if s.Bad {
+			body = []byte(`{"name": "x", "email": [`)
+		}
+		r = mk("PUT", "/users/"+esc(s.Name), body, "application/json")
 	case "del_user":
 		r = mk("DELETE", "/users/"+esc(s.Name), nil, "")
 	case "get_user":
@@ -651,7 +766,11 @@ func (e *Env) Build(s Step) *Built {
 		if s.Method == "POST" {
 			m = "POST"
 		}
-		r = mk(m, "/services/"+esc(s.Name), MetadataXML(s.MD), "application/xml")
+		md := MetadataXML(s.MD)
+		if s.Bad {
+			md = []byte(`{"not": "metadata"}`)
+		}
+		r = mk(m, "/services/"+esc(s.Name), md, "application/xml")
 	case "del_service":
 		r = mk("DELETE", "/services/"+esc(s.Name), nil, "")
 	case "get_service":
@@ -662,6 +781,9 @@ func (e *Env) Build(s Step) *Built {
 		sc := shortcutOf(s)
 		sc.Name = "ignored"
 		body, _ := json.Marshal(&sc)
+		if s.Bad {
+			body = []byte(`<shortcut/>`)
+		}
 		r = mk("PUT", "/shortcuts/"+esc(s.Name), body, "application/json")
 	case "del_shortcut":
 		r = mk("DELETE", "/shortcuts/"+esc(s.Name), nil, "")
@@ -711,7 +833,7 @@ func (e *Env) Build(s Step) *Built {
 		if s.Method == "POST" {
 			binding = saml.HTTPPostBinding
 		}
-		ar, err := sp.MakeAuthenticationRequest(BaseURL+"/sso", binding, saml.HTTPPostBinding)
+		ar, err := sp.MakeAuthenticationRequest(e.Server.IDP.SSOURL.String(), binding, saml.HTTPPostBinding)
 		if err != nil {
 			panic(err)
 		}
